@@ -147,6 +147,34 @@ example : proverRun Ex.ck Ex.polys Ex.rands Ex.comms ExLC.ops ExLC.stream
 /-- … and the verifier, replaying, accepts everything and is left with the same two -/
 example : verifierRun Ex.vk Ex.comms ExLC.ops ExLC.histProofs [[7, 8], [], [9]] ExLC.stream
     = .ok (true, [79, 83]) := ExLC.verifier_eq
+/-- every operation of that history is truthful (the hypothesis `htrue` of `sonic_history_lockstep`):
+the plain opening is over honest triples, the claimed evaluations / combination values are the true ones -/
+example : ∀ op ∈ ExLC.ops, Truthful Ex.ck Ex.vk (3 : K) 5 2 7 3 1 Ex.polys Ex.rands Ex.comms op := by
+  have hh := commit_honest (3 : K) 5 2 51 7 Ex.inv 4 3 1 _ Ex.ck Ex.vk Ex.trim_eq Ex.polys true _ Ex.comms
+    Ex.rands _ Ex.commit_eq
+  intro op hop
+  simp only [ExLC.ops, List.mem_cons, List.not_mem_nil, or_false] at hop
+  rcases hop with rfl | rfl | rfl
+  · -- the combination opening
+    have key : ∀ gr ∈ groupQueries ExLC.qs, ∀ l ∈ gr.2.2,
+        (lookupLast (fun (lc : LC.LinComb K) => lc.label) l ExLC.lcs).all (fun lc =>
+          decide (lookupEval ExLC.evals l gr.2.1
+            = some (lcPolyValue (labelMap Ex.polys Ex.rands Ex.comms) gr.2.1 lc.terms + constSum ExLC.lcs l)))
+          = true := by decide
+    intro gr hgr l hl lc hlc
+    have := key gr hgr l hl
+    rw [hlc] at this
+    simpa using this
+  · -- the plain opening of the first two committed polynomials
+    exact ⟨hh.1, hh.2.1, trivial⟩
+  · -- the batch opening
+    have key : ∀ gr ∈ groupQueries ExLC.bqs, ∀ l ∈ gr.2.2,
+        (lookupLast (fun (x : LPoly K × List K) => x.1.label) l (Ex.polys.zip Ex.rands)).all (fun x =>
+          decide (lookupEval ExLC.bevals l gr.2.1 = some (evalPoly x.1.poly gr.2.1))) = true := by decide
+    intro gr hgr l hl x hx
+    have := key gr hgr l hl
+    rw [hx] at this
+    simpa using this
 /-- the proof of the second operation verified first (other challenges) is rejected; the verifier
 still squeezes its `1 + 2` challenges -/
 example : verifyOp Ex.vk Ex.comms (.single (ExLC.trips.take 2) 6) [⟨2, some 37⟩] [] ExLC.stream
